@@ -417,9 +417,9 @@ impl PartialEq<Self> for BoundingBox {
     fn eq(&self, other: &Self) -> bool {
         (self.left - other.left).abs() < EPS
             && (self.top - other.top).abs() < EPS
-            && (self.width - other.width) < EPS
-            && (self.height - other.height) < EPS
-            && (self.confidence - other.confidence) < EPS
+            && (self.width - other.width).abs() < EPS
+            && (self.height - other.height).abs() < EPS
+            && (self.confidence - other.confidence).abs() < EPS
     }
 }
 
@@ -538,9 +538,9 @@ impl PartialEq<Self> for Universal2DBox {
     fn eq(&self, other: &Self) -> bool {
         (self.xc - other.xc).abs() < EPS
             && (self.yc - other.yc).abs() < EPS
-            && (self.angle.unwrap_or(0.0) - other.angle.unwrap_or(0.0)) < EPS
-            && (self.aspect - other.aspect) < EPS
-            && (self.height - other.height) < EPS
+            && (self.angle.unwrap_or(0.0) - other.angle.unwrap_or(0.0)).abs() < EPS
+            && (self.aspect - other.aspect).abs() < EPS
+            && (self.height - other.height).abs() < EPS
     }
 }
 
